@@ -3,7 +3,7 @@
 #   mt.sh setup                      (re)create /tmp/mt/{repo,verif} from /repo HEAD and the /verif working tree
 #   mt.sh run <seed-dir-name> <ID>.. apply /verif/seeded/<name>/patch.diff in the scratch repo, run the checks, undo
 set -u
-MT=/tmp/mt
+MT=${MT:-/tmp/mt}
 case "$1" in
 setup)
   mkdir -p $MT
